@@ -26,12 +26,13 @@ use crate::{
 
 type P = RistrettoPoint;
 
-const OPS: [&str; 16] = [
+const OPS: [&str; 17] = [
     "opening-new-drop",
     "opening-clone-drop",
     "witness-init-drop",
     "witness-init-refused",
     "witness-clone-drop",
+    "witness-opening-taken-then-drop",
     "mask-assign-drop",
     "statement-seeded-clone-drop",
     "statement-inline-seed",
@@ -160,6 +161,22 @@ fn op_body(cfg: Cfg, op: &'static str, res: &mut CaseResult) -> Option<()> {
                 drop(w);
                 report(&mut res, &sec, op, allocmon::disarm());
             },
+            "witness-opening-taken-then-drop" => {
+                // the caller moves an opening out of the witness (its `openings` field is public): the slot it occupied still
+                // holds the value inline; dropping the witness must wipe the whole buffer, not only the live elements
+                allocmon::arm();
+                let mut w = RangeWitness::init(mk_openings(wit)).unwrap();
+                let taken = w.openings.pop();
+                drop(w);
+                drop(taken);
+                report(&mut res, &sec, op, allocmon::disarm());
+                let mut w = RangeWitness::init(mk_openings(wit)).unwrap();
+                allocmon::arm();
+                let taken = w.openings.swap_remove(0);
+                drop(w);
+                drop(taken);
+                report(&mut res, &sec, op, allocmon::disarm());
+            },
             "mask-assign-drop" => {
                 allocmon::arm();
                 let m = ExtendedMask::assign(ext(cfg.d), wit.blindings[0].clone()).unwrap();
@@ -285,10 +302,10 @@ fn op_body(cfg: Cfg, op: &'static str, res: &mut CaseResult) -> Option<()> {
                     return Some(());
                 }
                 let built = build_cached::<P>(&cfg, wit).honest();
-                let proof = lib_prove(&built, &CTX_A, &mut HRng::chacha(7)).honest();
+                let proof = lib_prove_honest(&built, &CTX_A, &mut HRng::chacha(7));
                 let comp_wit = Wit::default_for(&cfg);
                 let comp = build_cached::<P>(&cfg, &comp_wit).honest();
-                let comp_proof = lib_prove(&comp, &CTX_A, &mut HRng::chacha(8)).honest();
+                let comp_proof = lib_prove_honest(&comp, &CTX_A, &mut HRng::chacha(8));
                 let mut variants: Vec<(&str, Vec<RangeStatement<P>>, Vec<tari_bulletproofs_plus::range_proof::RangeProof<P>>, Vec<Ctx>)> = Vec::new();
                 variants.push((
                     "second-member-fails-final-check",
